@@ -6,6 +6,7 @@
 -/
 import XotModel.Lemmas.SerIndentOK
 import XotModel.Lemmas.SerIndentNode
+import XotModel.Lemmas.RoundTripDenote
 
 namespace XotModel
 open Gen
@@ -20,13 +21,13 @@ structure ElemSame (n n' : Tree) : Prop where
   attrs : n'.attrs = n.attrs
   first : n'.firstChild?.isNone = false
 
-theorem dropWhile_head_false {α : Type} (p : α → Bool) : ∀ (l : List α) (a : α) (r : List α),
+theorem dropWhile_cons_head_false {α : Type} (p : α → Bool) : ∀ (l : List α) (a : α) (r : List α),
     l.dropWhile p = a :: r → p a = false ∧ a ∈ l
   | [], a, r, h => by simp at h
   | x :: l, a, r, h => by
     rw [List.dropWhile_cons] at h
     split at h
-    · obtain ⟨h1, h2⟩ := dropWhile_head_false p l a r h
+    · obtain ⟨h1, h2⟩ := dropWhile_cons_head_false p l a r h
       exact ⟨h1, List.mem_cons_of_mem _ h2⟩
     · rename_i hx
       simp only [List.cons.injEq] at h
@@ -68,7 +69,7 @@ theorem elemSame_pretty {name : Nat} {ks : List Tree}
       cases hd : ks.dropWhile (fun k => !k.value.isNormal) with
       | nil => simp [hd] at hc
       | cons k rest =>
-        obtain ⟨h1, h2⟩ := dropWhile_head_false _ ks k rest hd
+        obtain ⟨h1, h2⟩ := dropWhile_cons_head_false _ ks k rest hd
         exact ⟨k, h2, by simpa using h1⟩
     obtain ⟨k, hk, hnorm⟩ := hex
     have hmem : prettyNode sup (entryFor sup (.node (.element name) ks) :: ps) k ∈
@@ -101,16 +102,6 @@ theorem spellKids_append (inScope : List (Nat × Nat)) (s : FStack) (a b : List 
   induction a with
   | nil => rfl
   | cons k ks ih => simp only [List.cons_append, spellNode.spellKids, ih, List.append_assoc]
-
-theorem spellKids_abnormal (inScope : List (Nat × Nat)) (s : FStack) : ∀ (ks : List Tree),
-    (∀ k ∈ ks, k.value.isNormal = false ∧ k.kids = []) → spellNode.spellKids env inScope s ks = []
-  | [], _ => rfl
-  | .node v kk :: ks, h => by
-    have h1 := h (.node v kk) (by simp)
-    simp only [Tree.value, Tree.kids] at h1
-    obtain ⟨hv, rfl⟩ := h1
-    rw [spellNode.spellKids, spellKids_abnormal inScope s ks (fun k hk => h k (by simp [hk]))]
-    cases v <;> simp [Value.isNormal, Value.category] at hv <;> simp [spellNode, spellNode.spellKids]
 
 /-- A white space node is spelled as the white space run. -/
 theorem spellKids_wsNode (inScope : List (Nat × Nat)) (s : FStack) (w : Str) :
@@ -191,7 +182,7 @@ theorem spellP_resp (inScope : List (Nat × Nat)) (isTop : Bool) (s : FStack) (c
           cases k with
           | node v' ks' => exact allNodes_leaf env (hkn _ hk') (abnormal_leafKind h1)
         simp only [prettyNode, hc, Bool.false_eq_true, if_false, spellNode, hnone, if_true, spellNodeP,
-          spellKids_abnormal env inScope _ ks hab, spellKidsP_abnormal env pr sup inScope _ _ ps [] ks hab]
+          spellKids_abnormal inScope _ ks hab, spellKidsP_abnormal env pr sup inScope _ _ ps [] ks hab]
         exact respList_cons rfl rfl
 
 theorem spellKidsP_resp (inScope : List (Nat × Nat)) (s : FStack) (cd : Bool) (pc : PStack) (gap : Str)
